@@ -261,6 +261,20 @@ func runCheck(id, tier, repo, verif string, writeEvidence bool) int {
 		witnessEntries = append(witnessEntries, f)
 	}
 	witness, witnessOut := P.runWitnesses(witnessEntries, tmp)
+	// executed checks: committed test bodies under /verif/exec/<id>_*.go.txt must PASS on the real code
+	execFiles := map[string]string{}
+	if m, _ := filepath.Glob(filepath.Join(verif, "exec", id+"_*_test.go.txt")); len(m) > 0 {
+		for _, f := range m {
+			name := "executed/" + strings.TrimSuffix(strings.TrimPrefix(filepath.Base(f), id+"_"), "_test.go.txt")
+			execFiles[name] = filepath.Join("exec", filepath.Base(f))
+		}
+		t0 := time.Now()
+		failed, out := P.runGoTests(execFiles, tmp)
+		for name := range execFiles {
+			f, ran := failed[name]
+			cr.extras = append(cr.extras, extraResult{Name: name, Kind: "executed", OK: ran && !f, Detail: truncate(out, 3000), Ms: time.Since(t0).Milliseconds()})
+		}
+	}
 	violations := 0
 	var knownHit []string
 	var unclaimedHit []string
